@@ -2,6 +2,7 @@
 From Coq Require Import List NArith.
 Import ListNotations.
 Require Import Tr Transp Gen_Transpose GenProofs_Transpose.
+Require TriInv Gen_TriInv GenProofs_TriInv.
 Local Open Scope N_scope.
 
 (* inplace_transpose_64x64 exactly as written (uint64 semantics of &, |, <<, >>, ~), with the (mask, shift) passes read from
@@ -17,3 +18,13 @@ Theorem C20_transpose_involutive :
   forall (A : Type) (r c : nat) (t : list (list A)), rect A r c t -> transpose A r (transpose A c t) = t.
 Proof. exact transpose_involutive. Qed.
 Print Assumptions C20_transpose64_correct. Print Assumptions C20_transpose_involutive.
+
+(* inverse_assuming_lower_triangular, regenerated from source, is the loop of TriInv.v, and for every unit lower-triangular matrix
+   of any size that loop computes X with L * X = I over GF(2). *)
+Theorem C20_triangular_inverse_loop_is_the_model : GenProofs_TriInv.triinv_ok = true.
+Proof. exact GenProofs_TriInv.triangular_inverse_loop_is_the_model. Qed.
+Theorem C20_lower_triangular_inverse :
+  forall L : nat -> TriInv.row, (forall i : nat, L i i = true) -> (forall i j : nat, (i < j)%nat -> L i j = false) ->
+  forall n t k : nat, (t < n)%nat -> TriInv.xsum (fun j => andb (L t j) (TriInv.X L n j k)) n = Nat.eqb k t.
+Proof. exact TriInv.lower_triangular_inverse. Qed.
+Print Assumptions C20_triangular_inverse_loop_is_the_model. Print Assumptions C20_lower_triangular_inverse.
